@@ -5,8 +5,8 @@ import NeatviVerif.Model.RegexVM
 `results t i g` lists, in priority order (alternatives prefer the left, repetitions prefer more
 iterations), every way the tree `t` can match starting at byte offset `i`, as (end offset, group
 marks).  There is no depth limit.  An iteration of an unbounded repetition that matches the empty
-string is not repeated (the engine can only leave such a loop through its depth limit, and such
-runs are excluded from the completeness and priority clauses).
+string ends the repetition (the engine can only leave such a loop through its depth limit, and such
+runs are excluded from the completeness and priority clauses; the parse is still a genuine one).
 -/
 namespace Neatvi.Spec.RegexSem
 open Neatvi Neatvi.Regex
@@ -25,7 +25,7 @@ def bindR (rs : List R) (f : R → List R) : List R := rs.flatMap f
 /-- unbounded repetition after the mandatory copies: prefer another iteration -/
 def starRes (body : R → List R) : Nat → R → List R
   | 0, r => [r]
-  | f + 1, r => bindR (body r) (fun r' => if r'.1 == r.1 then [] else starRes body f r') ++ [r]
+  | f + 1, r => bindR (body r) (fun r' => if r'.1 == r.1 then [r'] else starRes body f r') ++ [r]
 
 /-- up to `k` optional copies: prefer one more -/
 def optRes (body : R → List R) : Nat → R → List R
@@ -65,7 +65,7 @@ def results (env : Env) : RNode → R → List R
 /-- start positions `regexec` tries: every character start, and the terminator -/
 def starts (s : Bytes) : Nat → Nat → List Nat
   | 0, _ => []
-  | f + 1, i => if i ≥ s.length then [i] else i :: starts s f (i + max 1 (Uc.ucLen (s.getD i 0)))
+  | f + 1, i => if i ≥ s.length then [i] else i :: starts s f (i + max 1 (rxLen s i))
 
 /-- the whole-pattern reference: first start position with a parse, and its best parse -/
 def firstMatch (t : RNode) (subj : Bytes) (flg : Nat) (nmarks : Nat) : Option (Nat × R) :=
